@@ -512,8 +512,109 @@ class Program:
                 if t is not None:
                     return [t]
             if f.get("trait"):
-                return self.trait_method_impls(f["trait"], f.get("name"))
+                cands = self.trait_method_impls(f["trait"], f.get("name"))
+                return self.filter_by_bounds(call, cands)
         return []
+
+    # ---- bound-aware fan-out ------------------------------------------------------------------
+    MARKERS = ("std::marker::", "core::marker::")
+
+    def _impl_index(self):
+        if not hasattr(self, "_implements"):
+            impls = defaultdict(set)
+            blanket = defaultdict(list)
+            for imp in self.impls:
+                tr = imp.get("trait")
+                if not tr:
+                    continue
+                st = imp["self_ty"]
+                if st.get("k") == "param":
+                    blanket[tr].append(imp)
+                else:
+                    impls[type_head(st["t"])].add(tr)
+            self._implements = impls
+            self._blanket = blanket
+        return self._implements, self._blanket
+
+    def type_implements(self, head, trait, depth=0):
+        """Does the (crate-local or external) type constructor `head` implement `trait`, as far as
+        the crate's impl table can tell?  Unknown cases answer True (over-approximate fan-out)."""
+        if trait.startswith(self.MARKERS) or trait in ("std::any::Any",):
+            return True
+        impls, blanket = self._impl_index()
+        if trait in impls.get(head, ()):
+            return True
+        local_trait = not trait.startswith(("std::", "core::", "alloc::")) and trait.split("::")[0] in self._local_mods()
+        local_type = head.split("::")[0] in self._local_mods()
+        for imp in blanket.get(trait, ()):
+            if depth > 2:
+                return True
+            pname = imp["self_ty"].get("name")
+            ok = True
+            for lhs, b in parse_preds(imp.get("preds", [])):
+                if lhs == pname and b != trait:
+                    if not self.type_implements(head, b, depth + 1):
+                        ok = False
+                        break
+            if ok:
+                return True
+        if local_trait:
+            return False        # every impl of a crate-local trait is in the table
+        if local_type:
+            # external trait on a local type: orphan rule => the impl would be in this crate,
+            # except for std blanket impls (From<T> for T, Into, Borrow, ToOwned, ...)
+            if trait.split("<")[0] in ("std::convert::From", "std::convert::Into", "std::convert::TryFrom",
+                                       "std::convert::TryInto", "std::borrow::Borrow", "std::borrow::BorrowMut",
+                                       "std::borrow::ToOwned", "std::string::ToString"):
+                return True
+            return False
+        return True
+
+    def _local_mods(self):
+        if not hasattr(self, "_lm"):
+            self._lm = set(f.path.split("::")[0].lstrip("<") for f in self.fns if "::" in f.path and not f.path.startswith("<"))
+            self._lm |= set(a.split("::")[0] for a in self.adts)
+        return self._lm
+
+    def filter_by_bounds(self, call, cands):
+        f = call.f
+        self_ty = f.get("self_ty")
+        if not self_ty or not cands:
+            return cands
+        caller = call.fn
+        gens = set(caller.j.get("generics", []))
+        # closures inherit their parent's generics
+        par = caller
+        while par is not None and par.kind == "closure":
+            par = self.by_key.get(par.parent)
+            if par is not None:
+                gens |= set(par.j.get("generics", []))
+        preds = list(caller.j.get("preds", []))
+        if par is not None and par is not caller:
+            preds += par.j.get("preds", [])
+        out = []
+        if self_ty in gens:
+            bounds = [b for lhs, b in parse_preds(preds) if lhs == self_ty and b != f["trait"]]
+            for c in cands:
+                imp = self.fn_impl(c)
+                if imp is None or imp["self_ty"].get("k") == "param":
+                    out.append(c)
+                    continue
+                head = type_head(imp["self_ty"]["t"])
+                if all(self.type_implements(head, b) for b in bounds):
+                    out.append(c)
+            return out
+        # structured self type mentioning parameters: unify heads and arguments
+        want = parse_ty(self_ty)
+        for c in cands:
+            imp = self.fn_impl(c)
+            if imp is None or imp["self_ty"].get("k") == "param":
+                out.append(c)
+                continue
+            have = parse_ty(imp["self_ty"]["t"])
+            if unify_ty(want, have, gens, set(imp.get("generics", []))):
+                out.append(c)
+        return out
 
     def trait_method_impls(self, trait, name):
         if not hasattr(self, "_tmi"):
@@ -585,12 +686,230 @@ class Program:
                     q.append(self.by_key[k])
         return seen
 
+    # ---- context-sensitive (generic-binding aware) reachability -----------------------------------
+    def fn_type_params(self, fn):
+        return [g for g in fn.j.get("generics", []) if not g.startswith("'")]
+
+    def callee_fns_ctx(self, call, binding):
+        """Like callee_fns, but an unresolved trait call whose Self type is a generic parameter of the
+        caller bound (in this calling context) to a concrete type resolves to the impls for that type."""
+        f = call.f
+        if "r_key" in f or not f.get("trait") or not binding:
+            return self.callee_fns(call)
+        self_ty = f.get("self_ty")
+        if not self_ty:
+            return self.callee_fns(call)
+        st = subst_ty(parse_ty(self_ty), binding)
+        gens = set(self.fn_type_params(call.fn))
+        if mentions(st, gens - set(binding)):
+            return self.callee_fns(call)
+        cands = self.trait_method_impls(f["trait"], f.get("name"))
+        out = []
+        for c in cands:
+            imp = self.fn_impl(c)
+            if imp is None:
+                out.append(c)
+                continue
+            if imp["self_ty"].get("k") == "param":
+                # blanket impl: applies if the concrete type satisfies the blanket's bounds
+                head = type_head(ty_text(st))
+                pname = imp["self_ty"].get("name")
+                if all(self.type_implements(head, b) for lhs, b in parse_preds(imp.get("preds", [])) if lhs == pname and b != f["trait"]):
+                    out.append(c)
+                continue
+            have = parse_ty(imp["self_ty"]["t"])
+            if unify_ty(st, have, set(), set(imp.get("generics", []))):
+                out.append(c)
+        if not out:
+            # never narrow to nothing: fall back to the context-insensitive answer
+            return self.callee_fns(call)
+        return out
+
+    def bind_for(self, call, callee, binding):
+        """Binding of the callee's type parameters induced by the generic arguments at this call site
+        (after substituting the caller's own binding); only fully concrete arguments are bound."""
+        targs = call.f.get("targs")
+        if targs is None:
+            return {}
+        params = self.fn_type_params(callee)
+        # for trait-method calls resolved to an impl method, generic args are those of the trait
+        # method (Self first); use the resolved instance's arguments when available
+        rfull = call.f.get("r_full")
+        gens = set(self.fn_type_params(call.fn))
+        out = {}
+        if "r_key" in call.f and call.f.get("r_key") != call.f.get("key"):
+            # resolved through a trait: recover impl parameters by unifying the impl self type
+            imp = self.fn_impl(callee)
+            st = call.f.get("self_ty")
+            if imp is not None and st:
+                want = subst_ty(parse_ty(st), binding)
+                have = parse_ty(imp["self_ty"]["t"])
+                collect_bindings(have, want, set(imp.get("generics", [])), out)
+            own = [p for p in params if p not in (imp.get("generics", []) if imp else [])]
+            rest = targs[1:] if st else targs
+            for pn, ta in zip(own, rest[len(rest) - len(own):] if own else []):
+                out[pn] = subst_ty(parse_ty(ta), binding)
+        else:
+            if len(params) != len(targs):
+                return {}
+            for pn, ta in zip(params, targs):
+                out[pn] = subst_ty(parse_ty(ta), binding)
+        return {k: v for k, v in out.items() if not mentions(v, gens - set(binding)) and not mentions(v, set(params))}
+
+    def reach_ctx(self, roots, visit, max_states=20000):
+        """Context-sensitive DFS over (function, binding).  visit(fn, binding, chain) is called once
+        per state.  Closures/fn items referenced by a function are entered with the same binding."""
+        self.build_callgraph()
+        seen = set()
+        stack = [(r, {}, (r.path,)) for r in roots]
+        n = 0
+        while stack:
+            fn, binding, chain = stack.pop()
+            key = (fn.key, tuple(sorted((k, ty_text(v)) for k, v in binding.items())))
+            if key in seen:
+                continue
+            seen.add(key)
+            n += 1
+            if n > max_states:
+                raise AnchorError("context-sensitive reachability exceeded %d states" % max_states)
+            visit(fn, binding, chain)
+            for c in fn.calls():
+                for t in self.callee_fns_ctx(c, binding):
+                    nb = self.bind_for(c, t, binding)
+                    stack.append((t, nb, chain + (t.path,)))
+                for a in c.args:
+                    if a.get("k") == "const" and a.get("fn_key") in self.by_key:
+                        t = self.by_key[a["fn_key"]]
+                        stack.append((t, {}, chain + (t.path,)))
+            for ch in self._children_of(fn):
+                stack.append((ch, dict(binding), chain + (ch.path,)))
+        return seen
+
+    def _children_of(self, fn):
+        self.children(fn)
+        return self._children.get(fn.key, ())
+
     def chain(self, seen, key):
         out = []
         while key is not None:
             out.append(self.by_key[key].path)
             key = seen[key]
         return out[::-1]
+
+
+def type_head(t):
+    t = t.strip()
+    while t.startswith("&"):
+        t = t[1:].strip()
+        if t.startswith("mut "):
+            t = t[4:].strip()
+    if t.startswith("["):
+        return "[array]" if ";" in t else "[slice]"
+    i = t.find("<")
+    return t if i < 0 else t[:i]
+
+
+def parse_preds(preds):
+    out = []
+    for p in preds:
+        m = re.match(r"^([A-Za-z_][A-Za-z0-9_]*): ([A-Za-z_][A-Za-z0-9_:]*)", p)
+        if m:
+            out.append((m.group(1), m.group(2)))
+    return out
+
+
+def split_args(s):
+    out, depth, cur = [], 0, ""
+    for ch in s:
+        if ch in "<[(":
+            depth += 1
+        elif ch in ">])":
+            depth -= 1
+        if ch == "," and depth == 0:
+            out.append(cur.strip())
+            cur = ""
+        else:
+            cur += ch
+    if cur.strip():
+        out.append(cur.strip())
+    return out
+
+
+def split_semi(s):
+    depth = 0
+    for i, ch in enumerate(s):
+        if ch in "<[(":
+            depth += 1
+        elif ch in ">])":
+            depth -= 1
+        elif ch == ";" and depth == 0:
+            return [s[:i], s[i + 1:]]
+    return [s]
+
+
+def ty_text(t):
+    if not t[1]:
+        return t[0]
+    if t[0] == "[array]":
+        return "[%s; %s]" % (ty_text(t[1][0]), ty_text(t[1][1]))
+    if t[0] == "[slice]":
+        return "[%s]" % ty_text(t[1][0])
+    return "%s<%s>" % (t[0], ", ".join(ty_text(a) for a in t[1]))
+
+
+def subst_ty(t, binding):
+    if not t[1] and t[0] in binding:
+        return binding[t[0]]
+    return (t[0], [subst_ty(a, binding) for a in t[1]])
+
+
+def mentions(t, names):
+    if not t[1]:
+        return t[0] in names
+    return any(mentions(a, names) for a in t[1])
+
+
+def parse_ty(t):
+    """('head', [args]) for `path<args>`; leaves are ('text', [])."""
+    t = t.strip()
+    while t.startswith("&"):
+        t = t[1:].strip()
+        if t.startswith("mut "):
+            t = t[4:].strip()
+    if t.startswith("[") and t.endswith("]"):
+        inner = t[1:-1]
+        parts = split_semi(inner)
+        if len(parts) == 2:
+            return ("[array]", [parse_ty(parts[0]), (parts[1].strip(), [])])
+        return ("[slice]", [parse_ty(inner)])
+    i = t.find("<")
+    if i < 0 or not t.endswith(">") or t.startswith("("):
+        return (t, [])
+    return (t[:i], [parse_ty(a) for a in split_args(t[i + 1:-1])])
+
+
+def unify_ty(a, b, gens_a, gens_b):
+    if not a[1] and a[0] in gens_a:
+        return True
+    if not b[1] and b[0] in gens_b:
+        return True
+    if a[0] != b[0]:
+        # const generic expressions / differing spellings of the same const: be permissive for leaves
+        if not a[1] and not b[1] and (a[0].isupper() or b[0].isupper() or a[0].isdigit() or b[0].isdigit()):
+            return a[0].isdigit() == b[0].isdigit() and (not a[0].isdigit() or a[0] == b[0]) or not (a[0].isdigit() and b[0].isdigit())
+        return False
+    if len(a[1]) != len(b[1]):
+        return True
+    return all(unify_ty(x, y, gens_a, gens_b) for x, y in zip(a[1], b[1]))
+
+
+def collect_bindings(pattern, concrete, params, out):
+    if not pattern[1] and pattern[0] in params:
+        out[pattern[0]] = concrete
+        return
+    if pattern[0] == concrete[0] and len(pattern[1]) == len(concrete[1]):
+        for a, b in zip(pattern[1], concrete[1]):
+            collect_bindings(a, b, params, out)
 
 
 class AnchorError(Exception):
